@@ -4,6 +4,9 @@
 (* setting; one event = one load of the real application:                  *)
 (*   [kind, fw, file, env, cli, files : <<namings>>,   abstract case       *)
 (*    fail : BOOLEAN,           startup stopped (SystemExit / exception)   *)
+(*    fb, fbdep : "no"|"set", BOOLEAN   the setting's stand-in variable is *)
+(*                              present; the value in force changes with   *)
+(*                              the variable's value (two loads compared)  *)
 (*    obs  : <<labels>>]        labels among "A", "B", "D" whose           *)
 (*                              normalised value equals the effective one  *)
 (*                              (<<>>: some other value)                   *)
@@ -12,6 +15,8 @@
 (*   InvalidStopsStartup   the most authoritative mention is invalid:      *)
 (*                         startup must stop                               *)
 (*   ValidStarts           no invalid mention: startup must not stop       *)
+(*   FallbackOnlyWhenUnmentioned  some source mentions it validly, yet the  *)
+(*                         value in force follows the stand-in variable    *)
 (*   MostAuthoritativeWins otherwise the value of the most authoritative   *)
 (*                         mention (an invalid mention by a less           *)
 (*                         authoritative source may stop startup or not)   *)
@@ -28,7 +33,7 @@ T == Traces[tid]
 Range(q) == {q[j] : j \in DOMAIN q}
 
 CaseOf(e) == [kind |-> e.kind, fw |-> e.fw, file |-> e.file, env |-> e.env, cli |-> e.cli,
-              files |-> Range(e.files)]
+              files |-> Range(e.files), fb |-> e.fb]
 
 TInit == s = S0(CHOOSE c \in Cases : TRUE) /\ tid \in 1..NT /\ l = 1 /\ verdict = "ok" /\ cv = "ok" /\ cstep = 0
 
@@ -45,6 +50,7 @@ PVerdict(e) ==
   THEN (IF e.fail THEN "ValidStarts" ELSE IF "D" \notin Range(e.obs) THEN "UnmentionedUntouched" ELSE "ok")
   ELSE IF m = "bad" THEN (IF e.fail THEN "ok" ELSE "InvalidStopsStartup")
   ELSE IF e.fail THEN (IF PAnyBad(c) THEN "ok" ELSE "ValidStarts")
+  ELSE IF e.fb = "set" /\ e.fbdep THEN "FallbackOnlyWhenUnmentioned"
   ELSE IF want \notin Range(e.obs) THEN "MostAuthoritativeWins"
   ELSE "ok"
 
@@ -52,6 +58,7 @@ CVerdict(e) ==
   LET o == Outcome(CaseOf(e)) IN
   IF (o.status = "failed") # e.fail THEN "drift:startup-" \o o.status
   ELSE IF ~e.fail /\ o.eff \notin Range(e.obs) THEN "drift:value-" \o o.eff
+  ELSE IF ~e.fail /\ e.fb = "set" /\ o.fbused # e.fbdep THEN "drift:fallback"
   ELSE "ok"
 
 TStep ==
